@@ -30,6 +30,20 @@ bitwise, returned losses), eval() / train(), fit(validation=True) (leaves the he
 nn.Clamp; BandNet).  A computation of a hedger left in evaluation mode is compared with a fresh hedger in the same mode AND with a fresh hedger as constructed
 (training mode): no module used here is documented to depend on the mode.  The session model is told a loss-backward as compute_loss, fit with validation with its
 validation draws, and is not told eval() / train() (it has no mode).  Fixed beginnings / model kinds by history index: every class occurs for every seed.
+
+the series as the instruments HOLD them (series_held / series_check, around every monitored call and every hedger call of the history parts): the bitwise monitor looks at
+the tensor objects that existed before a call; in addition the registry is compared - a computation that does not simulate leaves under every buffer name of every reachable
+instrument the same tensor object (so: dtype, shape, values), one that simulates inside (compute_loss / price / fit) leaves series of the dtype they had, none changes the
+dtype / device a primary declares.  Input class: hedgers whose PARAMETERS are in another dtype than the series where the code as it is works (0-dim parameter; a model that
+casts its input, handing the output back in the input's dtype or not; Naked / BlackScholes / WhalleyWilmott under a criterion with a parameter, OCE's w), single parameters on
+double series and the other way round, default and explicit `hedge=`: in the mutation sweep (kind by market index) and as histories (V) of compute_hedge / compute_pl /
+compute_portfolio / compute_loss / price / fit / simulate / to(instruments only) on two derivatives vs a fresh hedger on newly constructed instruments of the declared dtype.
+
+history of a feature OBJECT (III c): a bound feature object read at time steps (a run 0 .. k as the hedging loop makes it, or any steps / None), then the series change - the
+underlier gets another series of the same shape, the used object is bound to another derivative / hedger, a deep copy of it gets another series, the used object becomes an
+input of a Hedger (compute_hedge / compute_pl / get_input on the renewed and on another derivative) - and is read again at step k + 1, other steps, None: bitwise the value of a
+newly constructed feature object on the current series; every feature incl. barrier, prev_hedge, FeatureList, ModuleOutput; fixed first scenarios (barrier hit before the change
+and not after, and the other way round) for every seed.
 """
 import copy
 import math
@@ -62,6 +76,77 @@ def check(ctx):
         if not r["safe"]:
             ctx.ties_broken.append({"kind": "correspondence", "op": "heap", "case": nm, "impl": "no mutation observed so far", "model": "program rejected by the frame analysis"})
     alias_seen = set()
+    f32 = torch.float32
+
+    # ---- the series as the instruments HOLD them.  The bitwise monitor of call_impl looks at the tensor objects that existed before the call; a computation
+    # that puts OTHER tensors into the instruments (a cast of the series to the dtype of the hedger's parameters, `instrument.to(...)`, a re-registration)
+    # leaves those objects alone.  So the registry itself is compared: for every instrument reachable from the arguments / watched objects (the walk of
+    # common.snapshot_tensors) the tensor object registered under every buffer name, and the public dtype / device attributes of the primaries.
+    def series_held(objs):
+        reg, attrs, seen = {}, {}, set()
+
+        def visit(o, path):
+            if id(o) in seen or isinstance(o, torch.Tensor):
+                return
+            seen.add(id(o))
+            if isinstance(o, (list, tuple)):
+                for i, x in enumerate(o):
+                    visit(x, f"{path}[{i}]")
+                return
+            dd = getattr(o, "__dict__", {})
+            if isinstance(o, I.BaseInstrument):
+                for k, x in list((dd.get("_buffers") or {}).items()):
+                    if isinstance(x, torch.Tensor):
+                        reg[f"{path}.{k}"] = x
+                if "dtype" in dd or "device" in dd:          # (primaries keep them as plain attributes; derivatives read their underlier's)
+                    attrs[path] = (dd.get("dtype"), dd.get("device"))
+            unds = dd.get("_underliers")
+            if isinstance(unds, dict):
+                for k, x in unds.items():
+                    visit(x, f"{path}.{k}")
+            d_ = dd.get("derivative")
+            if d_ is not None:
+                visit(d_, f"{path}.derivative")
+        objs = list(objs)
+        for name_, o in objs:
+            visit(o, name_)
+        return objs, reg, attrs
+
+    def series_check(name, held, case, simulates=False):
+        """after the call: a computation that does not simulate leaves every registered series the SAME tensor object (hence dtype, shape, values: the
+        bitwise monitor has looked at the object); one that simulates inside (compute_loss / price / fit) renews the series, in the dtype they had.
+        No computation changes the dtype / device an instrument declares."""
+        objs, reg0, attrs0 = held
+        _, reg1, attrs1 = series_held(objs)
+        cast, replaced = [], []
+        for path, (dt0, dev0) in attrs0.items():
+            if path in attrs1 and attrs1[path] != (dt0, dev0):
+                cast.append(f"{path}: the instrument's dtype / device attributes were {dt0} / {dev0}, are {attrs1[path][0]} / {attrs1[path][1]}")
+        for path, old in reg0.items():
+            new = reg1.get(path)
+            if new is None:
+                if not simulates:
+                    replaced.append(f"{path}: no longer registered")
+            elif new.dtype != old.dtype:
+                cast.append(f"{path}: was {old.dtype}, is {new.dtype}")
+            elif new is not old and not simulates:
+                same = new.shape == old.shape and bool(((new == old) | (new.isnan() & old.isnan())).all())
+                replaced.append(f"{path}: another tensor object ({'equal values' if same else 'OTHER values / shape'})")
+        ctx.stats["series_registry_checked"] += 1
+        if cast:
+            ctx.fail(f"{name} cast the simulated series of an instrument to another dtype (the instrument holds other tensors than before the call / declares another "
+                     "dtype): computing modified market data", (case or {}) | {"call": name}, key=f"series_cast:{name}", detail=cast + replaced)
+        elif replaced:
+            ctx.fail(f"{name} (which does not simulate) replaced the simulated series an instrument holds by other tensors", (case or {}) | {"call": name},
+                     key=f"series_replaced:{name}", detail=replaced)
+        return cast + replaced
+
+    def call_held(name, case, fn, *args, watch=(), simulates=False, **kw):
+        """call_impl + the registry comparison (for the history parts, which call call_impl themselves)"""
+        held = series_held([(f"arg{i}", a) for i, a in enumerate(args)] + list(kw.items()) + list(watch))
+        out = call_impl(fn, *args, watch=list(watch), **kw)
+        series_check(name, held, case, simulates)
+        return out
 
     def monitored(name, fn, *args, watch=(), case=None, prog=None, **kw):
         """call the implementation under the bitwise mutation monitor; with `prog` = name of the Lean heap program modelling the
@@ -74,7 +159,9 @@ def check(ctx):
             for _, ref, _, _, _ in snapshot_tensors([(f"arg{i}", a) for i, a in enumerate(args)] + list(kw.items()) + list(watch)):
                 if ref.numel() > 0:
                     pre.add(ref.untyped_storage().data_ptr())
+        held = series_held([(f"arg{i}", a) for i, a in enumerate(args)] + list(kw.items()) + list(watch))
         st, v, mut = call_impl(fn, *args, watch=list(watch), **kw)
+        series_check(name, held, case)          # (no monitored call simulates an instrument it is given)
         ctx.stats[f"call={name}"] += 1
         if mut:
             ctx.fail(f"{name} modified market data or a caller tensor in place", (case or {}) | {"call": name, "mutated": mut},
@@ -120,6 +207,47 @@ def check(ctx):
             o = self.body(x)
             lo = o[..., [1]]
             return self.clamp(x[..., [-1]] if self.use_prev else o[..., [0]], min=lo, max=lo + 0.25 * o[..., [2]].abs())
+
+    # ---- hedgers whose PARAMETERS have another dtype than the instruments' series, where the code as it is works: a 0-dim parameter (type promotion leaves
+    # the result in the dtype of the series), a model that casts its input to the dtype of its weights (handing its output back in the dtype of the input, or
+    # not), and the parameter-free models (Naked, BlackScholes, WhalleyWilmott) under a criterion that has a parameter (OCE's w)
+    class ScaledFirst(torch.nn.Module):
+        def __init__(self, value, dtype):
+            super().__init__()
+            self.scale = torch.nn.Parameter(torch.tensor(value, dtype=dtype))
+
+        def forward(self, x):
+            return x[..., :1] * self.scale
+
+    class CastIn(torch.nn.Module):
+        def __init__(self, inner, back):
+            super().__init__()
+            self.inner, self.back = inner, back
+
+        def forward(self, x):
+            o = self.inner(x.to(next(self.inner.parameters()).dtype))
+            return o.to(x.dtype) if self.back else o
+
+    from pfhedge.nn.modules.loss import OCE
+    MIXED_KINDS = ["scaled", "criterion:Naked", "cast+prev_hedge", "criterion:BlackScholes", "scaled+prev_hedge", "cast", "criterion:WhalleyWilmott",
+                   "cast-noback+prev_hedge", "cast-noback"]
+
+    def mixed_hedger(kind, d_, pdt, gg, bs_ok=True, weights=None):
+        """-> (hedger, feature names, weights): a hedger of the given kind for the derivative with its parameters in dtype `pdt`.  `weights` (returned by an
+        earlier call) rebuilds a hedger with the same parameter VALUES"""
+        if kind.startswith("criterion:"):
+            crit_ = OCE(lambda x: 1.0 - torch.exp(-x)).to(pdt)
+            mname = kind.split(":")[1]
+            if mname == "Naked" or not bs_ok:
+                return Hedger(nn.Naked(), ["moneyness"], criterion=crit_), ["moneyness"], None
+            m_ = getattr(nn, mname)(d_)
+            return Hedger(m_, m_.inputs(), criterion=crit_), [str(f_) for f_ in m_.inputs()], None
+        names_ = ["log_moneyness", "time_to_maturity", "volatility"] + (["prev_hedge"] if kind.endswith("+prev_hedge") else [])
+        if kind.startswith("scaled"):
+            weights = weights if weights is not None else gg.choice([0.25, 0.5, -0.75, 0.3])
+            return Hedger(ScaledFirst(weights, pdt), names_), names_, weights
+        weights = weights if weights is not None else gen_linear(gg, len(names_), 1, relu=False)
+        return Hedger(CastIn(model_obj(torch, weights, dtype=pdt), "noback" not in kind), names_), names_, weights
 
     MODEL_KINDS = ["mlp", "band:LeakyClamp", "band:Clamp"]
 
@@ -253,6 +381,28 @@ def check(ctx):
                     ww = WhalleyWilmott(d)
                     hw = Hedger(ww, ww.inputs())
                     monitored("Hedger(WhalleyWilmott).compute_hedge", hw.compute_hedge, d, watch=watch, case=case)
+            # parameters of the hedger (model or criterion) in ANOTHER dtype than the series, both ways round (double series / single parameters and
+            # single series / double parameters); the kind rotates with the index of the market, so every kind occurs for every seed.  Also with an
+            # explicit `hedge=` instrument.  Monitor + registry: the series stay the tensors (dtype, values, objects) they were.
+            mixed_kind = MIXED_KINDS[it % len(MIXED_KINDS)]
+            bs_ok = volpos and not (mk["option"] in ("LookbackOption", "AmericanBinaryOption") and not mk["call"])
+            for idt, pdt in ((dt, f32), (f32, dt)):
+                dm = d if idt == dt else build_derivative(torch, mk, dtype=idt)[0]
+                hm, names_m, _ = mixed_hedger(mixed_kind, dm, pdt, g, bs_ok)
+                other = extra_hedges(torch, g, mk, 1, dtype=idt)
+                wm = [("derivative", dm), ("hedge", other)]
+                mcase = case | {"hedger": mixed_kind, "inputs": names_m, "series_dtype": str(idt), "parameter_dtype": str(pdt)}
+                ctx.case(mcase, True, tag="mixed_dtype_sweep")
+                ctx.stats[f"mixed_dtype_sweep:{mixed_kind}"] += 1
+                tagm = "[parameters in another dtype than the series]"
+                stepwise = "prev_hedge" in names_m
+                monitored(f"Hedger.get_input{tagm}", hm.get_input, dm, None if not stepwise else 0, watch=wm, case=mcase, prog=None if stepwise else "get_input")
+                monitored(f"Hedger.compute_hedge{tagm}", hm.compute_hedge, dm, watch=wm, case=mcase,
+                          prog=None if mixed_kind.startswith("criterion") else "hedge_step" if stepwise else "hedge_batched")
+                monitored(f"Hedger.compute_pl{tagm}", hm.compute_pl, dm, watch=wm, case=mcase, prog="pl")
+                monitored(f"Hedger.compute_portfolio{tagm}", hm.compute_portfolio, dm, watch=wm, case=mcase)
+                monitored(f"Hedger.compute_pl[hedge=other instrument]{tagm}", hm.compute_pl, dm, hedge=other, watch=wm, case=mcase, prog="pl")
+                monitored(f"Hedger.compute_hedge[hedge=other instrument]{tagm}", hm.compute_hedge, dm, hedge=other, watch=wm, case=mcase)
             # criteria and functional forms on caller tensors
             x = torch.tensor([[float(v) for v in r] for r in mk["spot"]], dtype=dt).t().contiguous()
             tg = torch.ones_like(x) * 0.5
@@ -374,7 +524,7 @@ def check(ctx):
                 outs = []
                 for hh in (hedger, fresh):
                     torch.manual_seed(seed)
-                    st, v, _ = call_impl(hh.fit, d_, n_epochs=2, n_paths=npaths, verbose=False, validation=op == "fit_val")
+                    st, v, _ = call_held("Hedger.fit", case | {"step": i}, hh.fit, d_, n_epochs=2, n_paths=npaths, verbose=False, validation=op == "fit_val", simulates=True)
                     outs.append((st, v, [p_.detach().clone() for p_ in hh.model.parameters()]))
                 (s1, v1, p1), (s2, v2, p2) = outs
                 ctx.stats[f"hist:fit:stale_grad={stale}"] += 1
@@ -392,13 +542,13 @@ def check(ctx):
                 torch.manual_seed(seed)
                 with torch.no_grad():
                     if op == "compute_hedge":
-                        st, v, mut = call_impl(fresh.compute_hedge, d_, watch=[("derivative", d_)])
+                        st, v, mut = call_held("Hedger.compute_hedge", case | {"step": i}, fresh.compute_hedge, d_, watch=[("derivative", d_)])
                     elif op == "compute_pl":
-                        st, v, mut = call_impl(fresh.compute_pl, d_, watch=[("derivative", d_)])
+                        st, v, mut = call_held("Hedger.compute_pl", case | {"step": i}, fresh.compute_pl, d_, watch=[("derivative", d_)])
                     elif op == "compute_loss":
-                        st, v, mut = call_impl(fresh.compute_loss, d_, n_paths=npaths)
+                        st, v, mut = call_held("Hedger.compute_loss", case | {"step": i}, fresh.compute_loss, d_, n_paths=npaths, simulates=True)
                     else:
-                        st, v, mut = call_impl(fresh.price, d_, n_paths=npaths)
+                        st, v, mut = call_held("Hedger.price", case | {"step": i}, fresh.price, d_, n_paths=npaths, simulates=True)
                 if mut and op in ("compute_hedge", "compute_pl"):
                     ctx.fail(f"Hedger.{op} modified market data in place", case | {"step": i}, key=f"mutation:Hedger.{op}", detail=mut)
                 if label == "used":
@@ -525,9 +675,9 @@ def check(ctx):
             for hh, dd in [(h_used[di], d_used[di])] + [(h_, d_new) for _, h_ in h_news]:
                 torch.manual_seed(seed)
                 if op == "compute_loss":
-                    st, v, mut = call_impl(hh.compute_loss, dd, n_paths=arg)
+                    st, v, mut = call_held("Hedger.compute_loss", case | {"step": i}, hh.compute_loss, dd, n_paths=arg, simulates=True)
                 else:
-                    st, v, mut = call_impl(getattr(hh, op), dd, watch=[("derivative", dd)])
+                    st, v, mut = call_held(f"Hedger.{op}", case | {"step": i}, getattr(hh, op), dd, watch=[("derivative", dd)])
                     if mut:
                         ctx.fail(f"Hedger.{op} modified market data in place", case | {"step": i}, key=f"mutation:Hedger.{op}", detail=mut)
                 outs.append((st, v.detach() if isinstance(v, torch.Tensor) else v))
@@ -610,7 +760,7 @@ def check(ctx):
                 args_ = (ders[di], g.choice([None, 0])) if op == "get_input" else (ders[di],)
                 outs = []
                 for hh in (h_shared[hi], h_own[hi]):
-                    st, v, mut = call_impl(getattr(hh, op), *args_, watch=[("derivative", ders[di])])
+                    st, v, mut = call_held(f"Hedger.{op}", case | {"step": i}, getattr(hh, op), *args_, watch=[("derivative", ders[di])])
                     if mut:
                         ctx.fail(f"Hedger.{op} modified market data in place", case | {"step": i}, key=f"mutation:Hedger.{op}", detail=mut)
                     outs.append((st, v))
@@ -620,6 +770,122 @@ def check(ctx):
                              "(differs from a hedger with feature objects of its own)", case | {"step": i, "op": op}, key=f"shared_features:{op}",
                              detail={"shared": str(outs[0][1])[:200], "own": str(outs[1][1])[:200]})
                     break
+    # ------------------------------------------------------------------ history independence III (c): what a feature OBJECT was asked before
+    # A bound feature object is read at some time steps (a run of consecutive steps 0 .. k as the hedging loop makes it, or any steps / the whole series),
+    # then the series it reads CHANGE -- the underlier gets a new series of the same shape (what a re-simulation with the same path count does); the used
+    # object is bound to another derivative / hedger (`used.of(other)`); a deep copy of the used object gets a new series; the used object is handed to
+    # a Hedger as an input feature -- and it is read again at the next step k + 1, at other steps and as a whole.  Every value must be the one a NEWLY
+    # constructed feature object gives on the current series, bitwise (same code on the same tensors).  Every feature (log variants, barrier, prev_hedge,
+    # FeatureList, ModuleOutput).  The first scenarios are fixed (series that hit a barrier before the change and stay away from it afterwards, and the
+    # other way round); own generator: the cases of the other parts do not move.
+    gc = Gen(f"{ctx.seed}:feature_history")
+    CHANGES = ["resimulate", "rebind", "deepcopy+resimulate", "hedger"]
+    FH_CORPUS = []
+    for up_, a_, b_ in ((True, [1, 2, 3, 3, 1, 1], [1, 1, 1, 1, 1, 3]), (False, [3, 1, 1, 1, 3, 3], [3, 3, 3, 3, 3, 1]),
+                        (True, [1, 1, 1, 1, 1, 1], [1, 3, 3, 1, 1, 1]), (False, [3, 3, 3, 3, 3, 3], [3, 1, 1, 3, 3, 3])):
+        for ch_ in CHANGES:
+            FH_CORPUS.append((up_, a_, b_, ch_))
+    nc = len(FH_CORPUS) + (24 if ctx.tier == "quick" else 300)
+    for it in range(nc):
+        corpus = it < len(FH_CORPUS)
+        mk_a = gen_market(gc, N=1, T=6, primary=gc.choice(["BrownianStock", "HestonStock"])) if corpus else gen_market(gc)
+        mk_o = gen_market(gc, N=1, T=6, primary=mk_a["primary"]) if corpus else gen_market(gc)
+        nxt = gen_market(gc, N=mk_a["N"], T=mk_a["T"], primary=mk_a["primary"])
+        mk_b = dict(mk_a, spot=nxt["spot"], vol=nxt["vol"], var=nxt["var"])          # the same derivative, another series of the same shape
+        if corpus:
+            up_, a_, b_, change = FH_CORPUS[it]
+            mk_a["spot"], mk_b["spot"], mk_o["spot"], thr = [[F(x) for x in a_]], [[F(x) for x in b_]], [[F(x) for x in b_]], F(2)
+            pre = [0, 1, 2]
+        else:
+            change = gc.choice(CHANGES)
+            thr = gc.choice([x for p in mk_a["spot"] + mk_b["spot"] + mk_o["spot"] for x in p])
+            Ta = mk_a["T"]
+            pre = list(range(gc.randint(0, Ta - 1) + 1)) if gc.chance(0.6) else [gc.choice([None] + list(range(Ta))) for _ in range(gc.randint(1, 3))]
+        T_after = mk_o["T"] if change == "rebind" else mk_a["T"]
+        last = next((t_ for t_ in reversed(pre) if t_ is not None), None)
+        post = ([last + 1] if last is not None and last + 1 < T_after else []) + [gc.randint(0, T_after - 1), gc.choice([None, gc.randint(0, T_after - 1)])]
+        fl_names = [gc.choice(ALL_FEATS) for _ in range(2)] + [gc.choice(["barrier_up", "barrier_down"])]
+        mo_ms = gen_linear(gc, 2, 1)
+        hms = [gen_linear(gc, 2, 1) for _ in range(3)] + [gen_linear(gc, 4, 1)]
+        enc_mk = lambda mk_: {k: (enc_rat(v) if k in ("spot", "vol", "var") else str(v)) for k, v in mk_.items()}
+        case = {"series_first": enc_mk(mk_a), "series_after_the_change": enc_rat(mk_b["spot"]) if change != "rebind" else None,
+                "other_derivative": enc_mk(mk_o) if change in ("rebind", "hedger") else None, "threshold": str(thr), "read_before": pre, "change": change,
+                "read_after": post, "list": fl_names}
+        ctx.case(case, True, tag="feature_object_history")
+        ctx.stats[f"feature_history:{change}"] += 1
+        ctx.traces += 1
+
+        def mkf_c(nm):
+            if nm == "FeatureList":
+                return FeatureList([feature_obj(torch, n_, mk_a, thr) for n_ in fl_names])
+            if nm == "module_output":
+                return ModuleOutput(model_obj(torch, mo_ms), [get_feature(feature_obj(torch, "barrier_up", mk_a, thr)), get_feature(feature_obj(torch, "max_moneyness", mk_a, thr))])
+            return get_feature(feature_obj(torch, nm, mk_a, thr))
+
+        def hedged(d_, ms_):
+            h_ = Hedger(model_obj(torch, ms_), ["moneyness", "prev_hedge"])
+            h_.compute_hedge(d_)                           # leaves this hedger's own prev_output
+            return h_
+        with torch.no_grad():
+            for name in ALL_FEATS + ["FeatureList", "module_output"]:
+                d_a, u_a = build_derivative(torch, mk_a)
+                h_a = hedged(d_a, hms[0])
+                used = mkf_c(name).of(d_a, h_a)
+                for t_ in pre:
+                    got, want = call_impl(used.get, t_)[:2], call_impl(mkf_c(name).of(d_a, h_a).get, t_)[:2]
+                    if not same_result(got, want):
+                        ctx.fail(f"feature object {name}: read at time step {t_} after the same object was read at other steps, it gives another value than a newly "
+                                 "constructed feature object on the same series", case | {"feature": name, "step": t_}, key=f"feature_history:reread:{name}",
+                                 detail={"got": str(got[1])[:200], "new_object": str(want[1])[:200]})
+                        break
+                if change == "hedger":
+                    # the used object as an input feature of a hedger, which hedges the derivative after its series changed / another derivative
+                    d_o = build_derivative(torch, mk_o)[0]
+                    inject(torch, u_a, mk_b)
+                    for tgt, d_t, stateful in [(tg_, dd_, sf_) for tg_, dd_ in (("same derivative, series renewed", d_a), ("another derivative", d_o)) for sf_ in ((False, True) if corpus else (gc.chance(0.4),))]:
+                        mk_hs = lambda fo: Hedger(model_obj(torch, hms[3 if name == "FeatureList" else 1]),
+                                                  (list(fo.features) if name == "FeatureList" else [fo]) + (["prev_hedge"] if stateful else ["zeros"]))
+                        h_u, h_n = mk_hs(used), mk_hs(mkf_c(name))
+                        T_t = d_t.ul().spot.size(1)
+                        steps = ([last + 1] if last is not None and last + 1 < T_t else []) + [gc.randint(0, T_t - 1)]
+                        for op, args_ in [("compute_hedge", (d_t,)), ("compute_pl", (d_t,))] + ([] if stateful else [("get_input", (d_t, t_)) for t_ in steps + [None]]):
+                            outs = []
+                            for hh in (h_u, h_n):
+                                st, v, mut = call_held(f"Hedger.{op}", case | {"feature": name}, getattr(hh, op), *args_, watch=[("derivative", d_t)])
+                                if mut:
+                                    ctx.fail(f"Hedger.{op} modified market data in place", case | {"feature": name}, key=f"mutation:Hedger.{op}", detail=mut)
+                                outs.append((st, v))
+                            ctx.stats[f"feature_history:hedger:{op}:{outs[0][0]}"] += 1
+                            if not same_result(*outs):
+                                ctx.fail(f"the result of Hedger.{op} depends on what the feature OBJECT {name} among the hedger's inputs was asked before (it differs from "
+                                         "a hedger holding a newly constructed feature object)", case | {"feature": name, "hedged": tgt, "prev_hedge_among_inputs": stateful,
+                                                                                                       "args": [str(a_) for a_ in args_[1:]]},
+                                         key=f"feature_history:hedger:{op}", detail={"used_object": str(outs[0][1])[:200], "new_object": str(outs[1][1])[:200]})
+                                break
+                    continue
+                if change == "resimulate":
+                    inject(torch, u_a, mk_b)
+                    target, d_t, h_t = used, d_a, h_a
+                elif change == "rebind":
+                    d_t = build_derivative(torch, mk_o)[0]
+                    h_t = hedged(d_t, hms[2])
+                    target = used.of(d_t, h_t)
+                else:
+                    target = copy.deepcopy(used)          # (holds copies of the derivative and of the hedger it is bound to)
+                    members = target.inputs.features if name == "module_output" else target.features if name == "FeatureList" else [target]
+                    d_t = members[0].derivative
+                    h_t = next((f_.hedger for f_ in members if getattr(f_, "hedger", None) is not None), None)
+                    inject(torch, d_t.ul(), mk_b)
+                for t_ in post:
+                    got = call_impl(target.get, t_)[:2]
+                    want = call_impl(mkf_c(name).of(d_t, h_t).get, t_)[:2]
+                    ctx.stats[f"feature_history:{got[0]}"] += 1
+                    if not same_result(got, want):
+                        ctx.fail(f"feature object {name}: after it was read at time steps {pre} and the series changed ({change}), the same object read at step {t_} gives "
+                                 "another value than a newly constructed feature object on the current series: the feature depends on what the object was asked before",
+                                 case | {"feature": name, "step": t_}, key=f"feature_history:{change}:{name}",
+                                 detail={"got": str(got[1])[:200], "new_object": str(want[1])[:200]})
+                        break
     # ------------------------------------------------------------------ history independence IV: the `hedge=` argument has a history too
     # ONE hedger lives through calls with DIFFERENT hedging instruments (default, the underlier passed explicitly, listed derivatives written
     # on the derivative's underlier), including fit(hedge=...) followed by calls with the default; the listed instruments live through
@@ -825,24 +1091,24 @@ def check(ctx):
             def run(hh, dd, hedge, label):
                 torch.manual_seed(seed)
                 if mop == "fit":
-                    st, v, _ = call_impl(hh.fit, dd, hedge=hedge, n_epochs=2, n_paths=npaths, verbose=False, validation=op == "fit_val", **fit_kw(hh, hh is h_used))
+                    st, v, _ = call_held("Hedger.fit", step_case, hh.fit, dd, hedge=hedge, n_epochs=2, n_paths=npaths, verbose=False, validation=op == "fit_val", simulates=True, **fit_kw(hh, hh is h_used))
                     return (st, torch.cat([p_.detach().reshape(-1) for p_ in hh.model.parameters()]) if st == "ok" else v)
                 if op == "loss_backward":          # gradient inspection / a hand-written training step without the step
-                    st, v, _ = call_impl(hh.compute_loss, dd, hedge=hedge, n_paths=npaths, n_times=2)
+                    st, v, _ = call_held("Hedger.compute_loss", step_case, hh.compute_loss, dd, hedge=hedge, n_paths=npaths, n_times=2, simulates=True)
                     if st == "ok":
                         v.backward()
                         v = v.detach()
                     return (st, v)
                 if op in ("compute_loss", "price"):
                     with torch.no_grad():
-                        st, v, _ = call_impl(getattr(hh, op), dd, hedge=hedge, n_paths=npaths, n_times=2)
+                        st, v, _ = call_held(f"Hedger.{op}", step_case, getattr(hh, op), dd, hedge=hedge, n_paths=npaths, n_times=2, simulates=True)
                     return (st, v)
                 with torch.no_grad():
                     if hh is h_used:
                         st, v = monitored(f"Hedger.{op}[hedge={label}]", getattr(hh, op), dd, hedge=hedge,
                                           watch=[("derivative", dd), ("listed", l_used)], case=step_case, prog=HEAP_PROG.get(op))
                     else:
-                        st, v, _ = call_impl(getattr(hh, op), dd, hedge=hedge)
+                        st, v, _ = call_held(f"Hedger.{op}", step_case, getattr(hh, op), dd, hedge=hedge)
                 return (st, v)
             kk = "listed" if arg.startswith("listed") else arg
             ctx.stats[f"hedge_hist:hedge={kk}"] += 1
@@ -991,6 +1257,90 @@ def check(ctx):
                                   f"shapes exact, values within {STOL} relative (max-norm)")
                 break
     ctx.extra["hedger_session_histories"] = len(sessions)
+    # ------------------------------------------------------------------ history independence V: parameters and series in DIFFERENT dtypes
+    # ONE hedger whose parameters (of the model, or of the criterion only) are in another dtype than the series of (one of) the derivatives it hedges --
+    # kinds of MIXED_KINDS by history index, single / double parameters alternately -- lives through compute_hedge / compute_pl / compute_portfolio /
+    # compute_loss / price / fit on two derivatives (own underliers, dtypes differing / equal) that are re-simulated (real simulations: values that do
+    # not fit single precision) and cast.  After every operation: the instruments hold the series they held (the operations that simulate: series of the
+    # dtype they had) and declare the dtype they declared; and the answer is the one a fresh hedger with the same parameters and criterion gives on newly
+    # constructed instruments of the declared dtype holding bit-identical buffers, under the same seed (bitwise; after fit: all parameters).
+    g6 = Gen(f"{ctx.seed}:mixed_dtype")
+    n6 = 2 * len(MIXED_KINDS) if ctx.tier == "quick" else 12 * len(MIXED_KINDS)
+    MOPS = ["compute_hedge", "compute_pl", "compute_portfolio", "compute_loss", "price", "fit"]
+    for it in range(n6):
+        kind = MIXED_KINDS[(it // 2) % len(MIXED_KINDS)]
+        pdt = f32 if it % 2 == 0 else f64
+        odt = f64 if pdt == f32 else f32
+        step = g6.choice([1 / 250, 1 / 100])
+        nT = g6.choice([3, 5])
+        bsm = kind in ("criterion:BlackScholes", "criterion:WhalleyWilmott")
+        specs = []
+        for j in range(2):
+            prim = g6.choice(["BrownianStock", "HestonStock", "MertonJumpStock"])
+            pkw = {"cost": g6.choice([0.0, 1e-3]), "dt": step} | ({} if prim == "HestonStock" else {"sigma": g6.choice([0.2, 0.3])})
+            oname = "EuropeanOption" if bsm else g6.choice(["EuropeanOption", "LookbackOption", "EuropeanBinaryOption"])
+            specs.append((prim, pkw, oname, {"strike": 1.0 if bsm else g6.choice([0.95, 1.0, 1.05]), "maturity": nT * step}))
+        decl = [odt, g6.choice([f32, f64])]          # the first derivative's series are never in the dtype of the parameters at the start
+        mk_u6 = lambda j, dtype_: getattr(I, specs[j][0])(dtype=dtype_, **specs[j][1])
+        mk_d6 = lambda j, u_: getattr(I, specs[j][2])(u_, **specs[j][3])
+        u_used = [mk_u6(j, decl[j]) for j in range(2)]
+        d_used = [mk_d6(j, u_used[j]) for j in range(2)]
+        for j in range(2):
+            torch.manual_seed(g6.randint(0, 10 ** 6))
+            d_used[j].simulate(n_paths=g6.choice([2, 3, 8]))
+        h_used, feats6, w6 = mixed_hedger(kind, d_used[0], pdt, g6)
+        ops = [("compute_hedge", 0), ("compute_pl", 0), ("compute_loss", 0), ("compute_portfolio", 0), ("price", 1), ("compute_hedge", 1), ("fit", 0), ("compute_pl", 0),
+               ("to", 0), ("compute_pl", 0), ("simulate", 0)]
+        ops += [(g6.choice(MOPS + MOPS + ["simulate", "to"]), g6.randint(0, 1)) for _ in range(g6.randint(2, 5 if ctx.tier == "quick" else 12))]
+        ops = [(o_, j_, g6.choice([2, 5, 8]), g6.randint(0, 10 ** 6), g6.choice(["float32", "float64"])) for o_, j_ in ops]
+        case = {"hedger": kind, "inputs": feats6, "parameter_dtype": str(pdt), "parameters": str(w6), "derivatives": [(sp[0], sp[1], sp[2], sp[3], str(dd_)) for sp, dd_ in zip(specs, decl)],
+                "ops": [(o_[0], o_[1], o_[2] if o_[0] != "to" else o_[4]) for o_ in ops]}
+        ctx.case(case, True, tag="mixed_dtype_history")
+        ctx.stats[f"mixed_dtype_history:{kind}"] += 1
+        ctx.traces += 1
+        for i, (op, j, npaths, seed, todt) in enumerate(ops):
+            ctx.stats[f"mixed_hist:{op}"] += 1
+            if op == "simulate":
+                torch.manual_seed(seed)
+                d_used[j].simulate(n_paths=npaths)
+                continue
+            if op == "to":          # the instruments only: the hedger keeps the dtype of its parameters
+                decl[j] = getattr(torch, todt)
+                d_used[j].to(decl[j])
+                continue
+            step_case = case | {"step": i, "op": op, "series_dtype": str(decl[j])}
+            ctx.stats[f"mixed_hist:{'other' if decl[j] != pdt else 'same'}-dtype"] += 1
+            # the new world (before the operation: fit changes the parameters)
+            u_new = mk_u6(j, decl[j])
+            for bname, buf in list(u_used[j].named_buffers()):
+                u_new.register_buffer(bname, buf.detach().clone())
+            d_new = mk_d6(j, u_new)
+            if kind.startswith("criterion:"):
+                m_new = nn.Naked() if kind.endswith("Naked") else getattr(nn, kind.split(":")[1])(mk_d6(0, mk_u6(0, decl[0])))
+                h_new = Hedger(m_new, feats6, criterion=copy.deepcopy(h_used.criterion))
+            else:
+                h_new = Hedger(copy.deepcopy(h_used.model), feats6)
+            outs = []
+            for hh, dd in ((h_used, d_used[j]), (h_new, d_new)):
+                torch.manual_seed(seed)
+                sim = op in ("compute_loss", "price", "fit")
+                kw6 = {} if not sim else {"n_paths": npaths} | ({"n_epochs": 2, "verbose": False} if op == "fit" else {})
+                with (torch.enable_grad() if op == "fit" else torch.no_grad()):
+                    st, v, mut = call_held(f"Hedger.{op}[parameters in another dtype than the series; history]", step_case, getattr(hh, op), dd,
+                                           watch=[("derivative", dd)], simulates=sim, **kw6)
+                if mut and not sim:
+                    ctx.fail(f"Hedger.{op} modified market data in place", step_case, key=f"mutation:Hedger.{op}", detail=mut)
+                if op == "fit" and st == "ok":
+                    v = torch.cat([p_.detach().double().reshape(-1) for p_ in hh.parameters()] + [torch.tensor(v, dtype=f64).reshape(-1)])
+                outs.append((st, v.detach() if isinstance(v, torch.Tensor) else v))
+            ctx.stats[f"mixed_hist-result:{op}:{outs[0][0] if outs[0][0] == 'ok' else outs[0][1]}"] += 1
+            if not same_result(*outs):
+                v1, v2 = outs[0][1], outs[1][1]
+                ctx.fail(("the parameters / losses of fit depend" if op == "fit" else "the result of a hedging operation depends") + " on what the hedger (parameters in another dtype than "
+                         "the series) and the instruments were used with before: it differs from a fresh hedger with the same parameters on newly constructed instruments "
+                         "of the same dtype holding bit-identical buffers, same seed", step_case, key=f"mixed_dtype_history:{op}",
+                         detail={"reused": f"{getattr(v1, 'dtype', '')} {str(v1)[:200]}", "fresh": f"{getattr(v2, 'dtype', '')} {str(v2)[:200]}"})
+                break
     # ------------------------------------------------------------------ model side: programs predicted pure
     return ctx.finish(
         rule="mutation sweep: every built-in feature (both modes, log variants, ModuleOutput), payoff, listed price incl. a pricer returning a view, "
@@ -1011,7 +1361,11 @@ def check(ctx):
              "of the used hedger vs fit of a fresh one under the same seed, bitwise), eval() / train(), fit(validation=True); models around nn.LeakyClamp / nn.Clamp "
              "(band [lo, lo + |w|/4] around the previous hedge / an output); evaluation-mode computations vs a fresh hedger in evaluation mode and (first 3 per history) "
              "vs a fresh hedger in training mode, bitwise; every answer, the parameters and the prev_output buffer after every operation compared (shapes exact, "
-             "values 1e-9 relative); every case non-trivial; distinct = sha1 of canonical case")
+             "values 1e-9 relative); registry of the series (same tensor objects after every non-simulating computation, same dtypes after simulating ones, declared dtype / device kept) "
+             "around every monitored call and every hedger call of the histories; hedgers with parameters in another dtype than the series (0-dim parameter, casting model, parameter-free "
+             "model under OCE) in the sweep and as histories V vs a fresh hedger on new instruments; feature-object histories III c (read at steps 0..k / any steps, then series renewed / "
+             "object re-bound / deep copy renewed / object handed to a Hedger, read again at k+1, other steps, None vs a newly constructed object; 16 fixed barrier scenarios + random); "
+             "every case non-trivial; distinct = sha1 of canonical case")
 
 
 def nn_module_output(torch, mk, thr, g):
